@@ -86,9 +86,11 @@ PROPS = {
         ],
     },
     "C04": {
-        "modules": ["Hannibal.Props.C04", "Hannibal.Props.C04Current", "Hannibal.Props.C04Q", "Hannibal.Props.C04QCurrent", "Hannibal.Props.C04P", "Hannibal.Props.C04PCurrent"],
+        "modules": ["Hannibal.Props.C04", "Hannibal.Props.C04Current", "Hannibal.Props.C04Q", "Hannibal.Props.C04QCurrent", "Hannibal.Props.C04P", "Hannibal.Props.C04PCurrent",
+                    "Hannibal.Props.SendErr", "Hannibal.Props.SendErrCurrent"],
         "theorems": ["Hannibal.C04_holds", "Hannibal.C04_current", "Hannibal.wellWired04_current",
-                     "Hannibal.C04q_holds", "Hannibal.C04q_current", "Hannibal.wellWired04q_current", "Hannibal.monC04q_step", "Hannibal.C04p_holds", "Hannibal.C04p_current"],
+                     "Hannibal.C04q_holds", "Hannibal.C04q_current", "Hannibal.wellWired04q_current", "Hannibal.monC04q_step", "Hannibal.C04p_holds", "Hannibal.C04p_current",
+                     "Hannibal.SendErr_holds", "Hannibal.SendErr_current"],
         "cases": {"quick": {"C04": 1500}, "thorough": {"C04": 20000, "x:C04": 320, "C02": 3000, "C17": 3000}},
         "assumptions": COMMON_ASSUMPTIONS + [
             "'no message submitted after an accepted stop request returned is ever handled', said of pings: monC04p is "
@@ -103,9 +105,11 @@ PROPS = {
     },
     "C17": {
         "modules": ["Hannibal.Props.C17", "Hannibal.Props.C17Current",
-                    "Hannibal.Props.C17N", "Hannibal.Props.C17NCurrent", "Hannibal.Props.C17R"],
+                    "Hannibal.Props.C17N", "Hannibal.Props.C17NCurrent", "Hannibal.Props.C17R",
+                    "Hannibal.Props.SendErr", "Hannibal.Props.SendErrCurrent"],
         "theorems": ["Hannibal.C17_holds", "Hannibal.C17_current",
-                     "Hannibal.C17n_holds", "Hannibal.C17n_current", "Hannibal.C17r_holds"],
+                     "Hannibal.C17n_holds", "Hannibal.C17n_current", "Hannibal.C17r_holds",
+                     "Hannibal.SendErr_holds", "Hannibal.SendErr_current"],
         "cases": {"quick": {"C17": 1500}, "thorough": {"C17": 20000, "x:C17": 320, "C04": 3000}},
         "assumptions": COMMON_ASSUMPTIONS + [
             "when None is allowed (monC17n) is theorem C17n_holds under fresh operation ids and consumeLast (no join / "
@@ -158,10 +162,12 @@ PROPS = {
     },
     "C02": {
         "modules": ["Hannibal.Props.C02", "Hannibal.Props.C02Current", "Hannibal.Props.C02Guarded",
-                    "Hannibal.Props.C02C", "Hannibal.Props.C02CCurrent"],
+                    "Hannibal.Props.C02C", "Hannibal.Props.C02CCurrent",
+                    "Hannibal.Props.SendErr", "Hannibal.Props.SendErrCurrent"],
         "theorems": ["Hannibal.C02_holds", "Hannibal.C02_current", "Hannibal.C02_split", "Hannibal.C02t_holds",
                      "Hannibal.C02orig_holds", "Hannibal.C02orig_current", "Hannibal.C02g_holds",
-                     "Hannibal.C02c_holds", "Hannibal.C02c_current"],
+                     "Hannibal.C02c_holds", "Hannibal.C02c_current",
+                     "Hannibal.SendErr_holds", "Hannibal.SendErr_current"],
         "cases": {"quick": {"C02": 1500}, "thorough": {"C02": 20000, "x:C02": 320, "C06": 3000, "C04": 3000}},
         "assumptions": COMMON_ASSUMPTIONS + [
             "operation ids of the trace are fresh (opIdsFresh, checked on every real trace by monC02wf)",
